@@ -27,6 +27,7 @@ type c21Mut struct {
 
 type c21Rec struct {
 	Set           string   `json:"set"`
+	Overwrite     string   `json:"overwrite"`
 	Muts          []c21Mut `json:"muts"`
 	Reported      []string `json:"reported"`
 	CollectErr    bool     `json:"collect_err"`
@@ -47,6 +48,7 @@ type c21File struct {
 // c21World is one restored copy of a snapshot with its restorer.
 type c21World struct {
 	set    string
+	mode   string
 	target string
 	rs     *Restorer
 	count  uint64
@@ -86,12 +88,12 @@ func c21Snapshot(t *testing.T, r *vrRepo, layouts [][]string) (*data.Snapshot, [
 	return r.snapshot(t, r.saveTreeRaw(t, top)), files
 }
 
-func c21NewWorld(t *testing.T, r *vrRepo, set string, sn *data.Snapshot, files []c21File, dir string) *c21World {
-	w := &c21World{set: set, target: dir, files: files, byName: map[string]*c21File{}}
+func c21NewWorld(t *testing.T, r *vrRepo, set, mode string, sn *data.Snapshot, files []c21File, dir string) *c21World {
+	w := &c21World{set: set, mode: mode, target: dir, files: files, byName: map[string]*c21File{}}
 	for i := range files {
 		w.byName[files[i].name] = &files[i]
 	}
-	w.rs = NewRestorer(r.repo, sn, Options{})
+	w.rs = NewRestorer(r.repo, sn, Options{Overwrite: vrModeOf(mode)})
 	n, err := w.rs.RestoreTo(context.Background(), dir)
 	if err != nil {
 		t.Fatalf("harness: restore failed: %v", err)
@@ -116,6 +118,10 @@ func (w *c21World) apply(m c21Mut) func() {
 		b[m.Pos] ^= 1 << (uint(m.Pos) % 8)
 		vrMust(os.WriteFile(p, b, 0o644))
 		vrMust(os.Chtimes(p, fi.ModTime(), fi.ModTime())) // same size, same mtime: only the content differs
+	case "flipnow":
+		b := append([]byte{}, f.bytes...)
+		b[m.Pos] ^= 1 << (uint(m.Pos) % 8)
+		vrMust(os.WriteFile(p, b, 0o644)) // mtime = now
 	case "truncate":
 		vrMust(os.Truncate(p, int64(m.Len)))
 		vrMust(os.Chtimes(p, fi.ModTime(), fi.ModTime()))
@@ -142,7 +148,7 @@ func (w *c21World) apply(m c21Mut) func() {
 }
 
 func (w *c21World) run(muts []c21Mut) c21Rec {
-	rec := c21Rec{Set: w.set, Muts: muts, Reported: []string{}, DiffersActual: []string{}, NFiles: len(w.files)}
+	rec := c21Rec{Set: w.set, Overwrite: w.mode, Muts: muts, Reported: []string{}, DiffersActual: []string{}, NFiles: len(w.files)}
 	var undo []func()
 	for _, m := range muts {
 		undo = append(undo, w.apply(m))
@@ -208,10 +214,29 @@ func TestVerif_C21(t *testing.T) {
 
 	type task struct {
 		set  string
+		mode string
 		muts []c21Mut
 	}
+	modes := []string{"always", "if-changed", "if-newer", "never"}
 	var tasks []task
-	add := func(set string, m ...c21Mut) { tasks = append(tasks, task{set, m}) }
+	nadd := 0
+	add := func(set string, m ...c21Mut) {
+		// verification must not depend on the --overwrite mode of the restore: modes rotate over the
+		// tasks; content-only changes (mtime-sensitive) additionally always run under if-changed
+		mode := modes[(nadd+int(kit.Seed()))%len(modes)]
+		nadd++
+		tasks = append(tasks, task{set, mode, m})
+		if len(m) == 1 && (m[0].Kind == "flip" || m[0].Kind == "flipnow" || m[0].Kind == "touch" || m[0].Kind == "rewrite") && mode != "if-changed" && (kit.Thorough() || nadd%3 == 0) {
+			tasks = append(tasks, task{set, "if-changed", m})
+		}
+		if len(m) == 0 {
+			for _, md := range modes {
+				if md != mode {
+					tasks = append(tasks, task{set, md, m})
+				}
+			}
+		}
+	}
 
 	gen := func(set string, files []c21File, exhaustive bool) {
 		add(set) // control: nothing tampered
@@ -261,6 +286,9 @@ func TestVerif_C21(t *testing.T) {
 			}
 			for _, p := range ps {
 				add(set, c21Mut{File: f.name, Kind: "flip", Pos: p, Size: n})
+				if p%7 == 0 || p == n-1 {
+					add(set, c21Mut{File: f.name, Kind: "flipnow", Pos: p, Size: n})
+				}
 				add(set, c21Mut{File: f.name, Kind: "truncate", Len: p, Size: n})
 			}
 			add(set, c21Mut{File: f.name, Kind: "truncate", Len: n, Size: n}) // no-op control
@@ -303,19 +331,21 @@ func TestVerif_C21(t *testing.T) {
 	ch := make(chan task, 256)
 	for wi := 0; wi < workers; wi++ {
 		wg.Add(1)
-		worlds := map[string]*c21World{
-			"small": c21NewWorld(t, r, "small", snSmall, fSmall, filepath.Join(root, fmt.Sprintf("w%d-small", wi))),
-			"big":   c21NewWorld(t, r, "big", snBig, fBig, filepath.Join(root, fmt.Sprintf("w%d-big", wi))),
+		worlds := map[string]*c21World{}
+		for _, md := range modes {
+			worlds["small|"+md] = c21NewWorld(t, r, "small", md, snSmall, fSmall, filepath.Join(root, fmt.Sprintf("w%d-small-%s", wi, md)))
+			worlds["big|"+md] = c21NewWorld(t, r, "big", md, snBig, fBig, filepath.Join(root, fmt.Sprintf("w%d-big-%s", wi, md)))
 		}
 		go func() {
 			defer wg.Done()
 			for tk := range ch {
-				rec := worlds[tk.set].run(tk.muts)
+				rec := worlds[tk.set+"|"+tk.mode].run(tk.muts)
 				if rec.Muts == nil {
 					rec.Muts = []c21Mut{}
 				}
 				out.Write(rec)
-				key := tk.set
+				key := tk.set + "|" + tk.mode
+				res.Count("overwrite_"+tk.mode, 1)
 				for _, m := range tk.muts {
 					key += fmt.Sprintf("|%s:%s:%d:%d", m.File, m.Kind, m.Pos, m.Len)
 				}
